@@ -61,3 +61,15 @@ Theorem C20_mw_range : forall (C : numClosedFieldType) (n : nat) (u v : 'I_n -> 
   (0 <= D (@conjC C) u v)%R /\ (A (@conjC C) u + A (@conjC C) v = 1 -> (D (@conjC C) u v *+ 4 <= 1)%R).
 Proof. move=> C n u v. split. exact: D_ge0. exact: D_le_quarter. Qed.
 Print Assumptions C20_mw_range.
+
+(* zero only when the qubit is unentangled: if the per-qubit quantity vanishes the two halves are proportional (u_i v_j = u_j v_i
+   for all i, j; u is a multiple of v whenever v is not the zero vector), i.e. the state is a product across the cut {k} | rest *)
+Theorem C20_mw_zero_only_if_proportional : forall (C : numClosedFieldType) (n : nat) (u v : 'I_n -> C),
+  D (@conjC C) u v = 0 -> forall i j : 'I_n, u i * v j = u j * v i.
+Proof. move=> C n u v. exact: D_eq0_cross. Qed.
+Print Assumptions C20_mw_zero_only_if_proportional.
+
+Theorem C20_mw_zero_multiple : forall (C : numClosedFieldType) (n : nat) (u v : 'I_n -> C) (j : 'I_n),
+  D (@conjC C) u v = 0 -> v j != 0 -> forall i, u i = (u j / v j) * v i.
+Proof. move=> C n u v j. exact: D_eq0_proportional. Qed.
+Print Assumptions C20_mw_zero_multiple.
